@@ -446,6 +446,9 @@ func (r ruleData) toAuditRuleData() (*auditRuleData, error) {
 }
 
 func (r *ruleData) fromAuditRuleData(in *auditRuleData) error {
+	if in.FieldCount > maxFields {
+		return fmt.Errorf("field count %d exceeds the maximum of %d", in.FieldCount, maxFields)
+	}
 	r.flags = in.Flags
 	r.action = in.Action
 	r.fields = make([]field, in.FieldCount)
@@ -476,10 +479,11 @@ func (r *ruleData) fromAuditRuleData(in *auditRuleData) error {
 			objectLevelHighField, pathField, dirField, subjectUserField,
 			subjectRoleField, subjectTypeField, subjectSensitivityField,
 			subjectClearanceField, keyField, exeField:
-			end := in.Values[i] + offset
-			if end > in.BufLen {
+			// offset <= BufLen always holds, so this cannot wrap around.
+			if in.Values[i] > in.BufLen-offset {
 				return fmt.Errorf("field %d overflows buffer", i)
 			}
+			end := in.Values[i] + offset
 			r.strings = append(r.strings, string(in.Buf[offset:end]))
 			offset = end
 		}
